@@ -534,6 +534,28 @@ and parse_vfields (ts : tok list) =
        | _ -> failwith "f")
   | _ -> failwith "bad value field"
 
+(* value trees for field path resolution (Model/Path.v): W lines *)
+let rec parse_pval (ts : tok list) : pval * tok list =
+  match ts with
+  | LP :: Atom "l" :: Atom n :: Atom id :: RP :: r -> (PLeaf (xstr n, n_of_int (int_of_string id)), r)
+  | LP :: Atom "n" :: Atom n :: r ->
+      let (z, r1) = parse_pval r in
+      (match r1 with RP :: r2 -> (PNil (xstr n, z), r2) | _ -> failwith "n")
+  | LP :: Atom "p" :: Atom n :: r ->
+      let (v, r1) = parse_pval r in
+      (match r1 with RP :: r2 -> (PPtr (xstr n, v), r2) | _ -> failwith "p")
+  | LP :: Atom "s" :: Atom n :: r -> let (fs, r1) = parse_pfields r in (PStruct (xstr n, fs), r1)
+  | _ -> failwith "bad W tree"
+and parse_pfields (ts : tok list) =
+  match ts with
+  | RP :: r -> ([], r)
+  | LP :: Atom "f" :: Atom name :: Atom ex :: r ->
+      let (v, r1) = parse_pval r in
+      (match r1 with
+       | RP :: r2 -> let (fs, r3) = parse_pfields r2 in ((xstr name, (ex = "1", v)) :: fs, r3)
+       | _ -> failwith "f")
+  | _ -> failwith "bad W field"
+
 let bits_of_cons (c : cons) : string =
   (if c.c_index then "i" else "-") ^ (if c.c_unique then "u" else "-") ^
   (if c.c_upper then "U" else "-") ^ (if c.c_lower then "L" else "-")
@@ -545,7 +567,7 @@ let rec nat_of_int (i : int) : nat = if i <= 0 then O else S (nat_of_int (i - 1)
 
 let descr_mode (path : string) =
   let ic = open_in path in
-  let ty = ref None and impl_ds = ref [] and value = ref None and strs = ref [] in
+  let ty = ref None and impl_ds = ref [] and value = ref None and strs = ref [] and pvalue = ref None in
   let rest l k = String.sub l k (String.length l - k) in
   let flush_descr () =
     match !ty with
@@ -581,6 +603,21 @@ let descr_mode (path : string) =
                   if target = changed then print_endline ("same walk " ^ target)
                   else print_endline ("DIFF walk path " ^ p ^ " impl changed [" ^ changed ^ "] model target [" ^ target ^ "]")
               | _ -> print_endline ("DIFF bad X line " ^ l))
+         | 'W' -> pvalue := Some (fst (parse_pval (tokenize (rest l 2))))
+         | 'R' ->
+             (match String.split_on_char ' ' (rest l 2), !pvalue with
+              | [p; ok; ci; tn; id], Some o ->
+                  let names = split_on dot (xstr p) in
+                  let m =
+                    match vfbn (nat_of_int 200) false o names with
+                    | None -> "0 - - -"
+                    | Some (v, ro) ->
+                        let ids = match v with PLeaf (_, i) -> string_of_int (int_of_n i) | _ -> "-" in
+                        Printf.sprintf "1 %s x%s %s" (if ro then "0" else "1") (hex_of_bytes (ptname v)) ids in
+                  let i = Printf.sprintf "%s %s %s %s" ok ci tn id in
+                  if m = i then print_endline ("same path " ^ (if ok = "0" then "unknown" else if ci = "0" then "read-only" else "resolved"))
+                  else print_endline ("DIFF path " ^ p ^ " impl[" ^ i ^ "] model[" ^ m ^ "]")
+              | _ -> print_endline ("DIFF bad R line " ^ l))
          | 'P' ->
              (match !ty with
               | Some t ->
